@@ -287,14 +287,16 @@ def task_length():
         n = len(pts)
         for U in ([0, 0] + list(range(1, n - 1)) + [n - 1, n - 1], [F(0), F(0)] + [F(i * i, n * n) + F(1, 7) for i in range(1, n - 1)] + [F(2), F(2)]):
             C = curves.Curve(U, [np.array(q) for q in pts])
-            try:
-                got = calculus.Integrate.lenght(C)
-                ok = abs(float(got) - length) <= 1e-9 * length
-                detail = "length %r, sum of segment lengths %d" % (got, length)
-            except Exception as e:
-                ok, detail = False, "%s: %s" % (type(e).__name__, str(e)[:100])
-            out.append(ob("%s:polyline[%d points,%s knots]" % (fn, n, "uniform" if isinstance(U[2], int) or n == 2 else "non-uniform"), fn,
-                          PROVED if ok else FAILED, "B", "concrete", 0.0, detail, None if ok else dict(kind="c10.length", pts=pts)))
+            # default rule, and the closed rule on the (piecewise constant, jumping) speed: a sample at the end of a span belongs to that span (D12)
+            for label, kw in (("default", {}), ("closed-newton-cotes", dict(method="closed-newton-cotes", nnodes=3)), ("open-newton-cotes", dict(method="open-newton-cotes", nnodes=3))):
+                try:
+                    got = calculus.Integrate.lenght(C, **kw)
+                    ok = abs(float(got) - length) <= 1e-9 * length
+                    detail = "length %r, sum of segment lengths %d" % (got, length)
+                except Exception as e:
+                    ok, detail = False, "%s: %s" % (type(e).__name__, str(e)[:100])
+                out.append(ob("%s:polyline[%d points,%s knots,%s]" % (fn, n, "uniform" if isinstance(U[2], int) or n == 2 else "non-uniform", label), fn,
+                              PROVED if ok else FAILED, "B", "concrete", 0.0, detail, None if ok else dict(kind="c10.length", pts=pts)))
     return out
 
 
